@@ -349,6 +349,44 @@ func (g *Gen) verifyFunc(fn *ssa.Function, fc *FuncContract) (obs []*Obligation,
 		c.setupEntry()
 		c.run()
 	}
+	if fc.ReadsGlobalsSet {
+		// frame condition on reads: the function's outcome depends on its arguments and what they reach, not on
+		// package-level tables. Decided syntactically over the SSA body: every operand that is a package-level variable
+		// must be in the allowed list. One obligation, discharged or failed here (no solver involved).
+		allowed := map[string]bool{}
+		for _, a := range fc.ReadsGlobals {
+			allowed[a] = true
+		}
+		var bad []string
+		seen := map[string]bool{}
+		for _, b := range fn.Blocks {
+			for _, in := range b.Instrs {
+				for _, op := range in.Operands(nil) {
+					if op == nil || *op == nil {
+						continue
+					}
+					if gl, ok := (*op).(*ssa.Global); ok {
+						n := gl.Name()
+						if gl.Pkg != nil && gl.Pkg.Pkg != fn.Pkg.Pkg {
+							n = gl.Pkg.Pkg.Path() + "." + n
+						}
+						if !allowed[n] && !allowed[gl.Name()] && !seen[n] {
+							seen[n] = true
+							bad = append(bad, n)
+						}
+					}
+				}
+			}
+		}
+		ob := &Obligation{Name: shortName(fn.String()) + "#frame.readsglobals", Fn: fn.String(), Kind: "frame.readsglobals", Result: "unsat",
+			Desc: "the function mentions no package-level variable outside the allowed list", Solver: "syntactic"}
+		if len(bad) > 0 {
+			sort.Strings(bad)
+			ob.Result = "error"
+			ob.Output = "package-level variables read or written outside the allowed list: " + strings.Join(bad, ", ")
+		}
+		c.obs = append(c.obs, ob)
+	}
 	for _, a := range fc.Asserts {
 		if !c.anchorsHit[a.Anchor] {
 			ob := &Obligation{Name: shortName(fn.String()) + "#bind:" + normAnchor(a.Anchor), Fn: fn.String(), Kind: "bind", Result: "error",
